@@ -86,7 +86,8 @@ func (in *Interp) callAPI(caller *frame, api string, fn *ssa.Function, args []Va
 		in.assumeTerm(st.And(st.Cmp(term.OSLe, st.BVC(uint64(lo), 64), t), st.Cmp(term.OSLe, t, st.BVC(uint64(hi), 64))))
 		return t
 	case "vFloat64":
-		return in.newInput(in.strArg(args[0]), "float64", term.FP64)
+		// a float input is a 64-bit pattern reinterpreted, so that Float64bits of it stays a plain variable
+		return in.st.BitsToFP(in.newInput(in.strArg(args[0]), "float64", term.BV(64)), term.FP64)
 	case "vChoice":
 		name := in.strArg(args[0])
 		n := int(args[1].(int64))
@@ -426,6 +427,49 @@ func init() {
 		}
 		return in.boolVal(in.st.FIsNaN(args[0].(*term.T)))
 	}
+	intrinsics["math.Float64bits"] = func(in *Interp, caller *frame, fn *ssa.Function, args []Value) Value {
+		if c, ok := args[0].(float64); ok {
+			return int64(math.Float64bits(c))
+		}
+		t := args[0].(*term.T)
+		if t.Op == term.OBitsToFP {
+			return t.Args[0]
+		}
+		in.unsupported("math.Float64bits of a computed symbolic float")
+		return nil
+	}
+	intrinsics["math.Float64frombits"] = func(in *Interp, caller *frame, fn *ssa.Function, args []Value) Value {
+		if c, ok := args[0].(int64); ok {
+			return math.Float64frombits(uint64(c))
+		}
+		return in.st.BitsToFP(args[0].(*term.T), term.FP64)
+	}
+	intrinsics["strconv.FormatFloat"] = func(in *Interp, caller *frame, fn *ssa.Function, args []Value) Value {
+		if c, ok := args[0].(float64); ok {
+			return strconv.FormatFloat(c, byte(args[1].(int64)), int(args[2].(int64)), int(args[3].(int64)))
+		}
+		in.unsupported("strconv.FormatFloat of a symbolic float (formatted symbolic numbers have no concrete length)")
+		return nil
+	}
+	intrinsics["strconv.FormatInt"] = func(in *Interp, caller *frame, fn *ssa.Function, args []Value) Value {
+		if c, ok := args[0].(int64); ok {
+			return strconv.FormatInt(c, int(args[1].(int64)))
+		}
+		in.unsupported("strconv.FormatInt of a symbolic integer (formatted symbolic numbers have no concrete length)")
+		return nil
+	}
+	intrinsics["strconv.Itoa"] = func(in *Interp, caller *frame, fn *ssa.Function, args []Value) Value {
+		if c, ok := args[0].(int64); ok {
+			return strconv.Itoa(int(c))
+		}
+		in.unsupported("strconv.Itoa of a symbolic integer (formatted symbolic numbers have no concrete length)")
+		return nil
+	}
+	delete(natives, "math.Float64bits")
+	delete(natives, "math.Float64frombits")
+	delete(natives, "strconv.FormatFloat")
+	delete(natives, "strconv.FormatInt")
+	delete(natives, "strconv.Itoa")
 	delete(natives, "math.Floor")
 	delete(natives, "math.Ceil")
 	delete(natives, "math.Trunc")
@@ -483,6 +527,8 @@ func init() {
 		}
 		return nil
 	}
+	intrinsics["internal/stringslite.Clone"] = func(in *Interp, caller *frame, fn *ssa.Function, args []Value) Value { return args[0] }
+	intrinsics["strings.Clone"] = func(in *Interp, caller *frame, fn *ssa.Function, args []Value) Value { return args[0] }
 	intrinsics["internal/abi.NoEscape"] = func(in *Interp, caller *frame, fn *ssa.Function, args []Value) Value { return args[0] }
 	intrinsics["internal/abi.Escape"] = func(in *Interp, caller *frame, fn *ssa.Function, args []Value) Value { return args[0] }
 	intrinsics["internal/bytealg.MakeNoZero"] = func(in *Interp, caller *frame, fn *ssa.Function, args []Value) Value {
@@ -504,6 +550,22 @@ func init() {
 	}
 	intrinsics["(time.Time).UnixNano"] = func(in *Interp, caller *frame, fn *ssa.Function, args []Value) Value { return int64(0) }
 	intrinsics["(time.Time).Unix"] = func(in *Interp, caller *frame, fn *ssa.Function, args []Value) Value { return int64(0) }
+	intrinsics["math/rand.NewSource"] = func(in *Interp, caller *frame, fn *ssa.Function, args []Value) Value { return Iface{} }
+	intrinsics["math/rand.New"] = func(in *Interp, caller *frame, fn *ssa.Function, args []Value) Value { return (*Value)(nil) }
+	intrinsics["math/rand.Intn"] = func(in *Interp, caller *frame, fn *ssa.Function, args []Value) Value {
+		// environment nondeterminism: any value in [0, n)
+		in.nondetUse("math/rand.Intn")
+		n, ok := args[0].(int64)
+		if !ok {
+			in.unsupported("rand.Intn with symbolic bound")
+		}
+		if n <= 0 {
+			in.throw("explicit", "invalid argument to Intn", Iface{T: types.Typ[types.String], V: "invalid argument to Intn"})
+		}
+		t := in.newInput("env.rand.Intn", "env", term.BV(64))
+		in.assumeTerm(in.st.Cmp(term.OULt, t, in.st.BVC(uint64(n), 64)))
+		return in.fromTerm(t, intInfo{64, true})
+	}
 	intrinsics["os.ReadFile"] = func(in *Interp, caller *frame, fn *ssa.Function, args []Value) Value { return in.vfsReadFile(fn, args[0]) }
 	intrinsics["path/filepath.Abs"] = func(in *Interp, caller *frame, fn *ssa.Function, args []Value) Value { return in.vfsAbs(args[0]) }
 	intrinsics["path/filepath.Walk"] = func(in *Interp, caller *frame, fn *ssa.Function, args []Value) Value {
